@@ -27,10 +27,20 @@ TDiff ==
   /\ ctx' = [ctx EXCEPT !.d = Rec.diff, !.n = Len(Rec.diff)]
   /\ Judge("C17") => Check(Rec.st = "ok", "C17", "diff-call")
 
+(* the listed deviation "setkeys-identity-ignores-key-names" (Patch.tla) is shared by v1: lib/object.go ident sorts the   *)
+(* key-value hashes in the same way.  A failing clause of a session of that input class is reported as the finding.      *)
+IdentKnown ==
+  /\ "setkeys-identity-ignores-key-names" \in KnownDevs /\ Len(ctx.o.keys) >= 2
+  /\ HasIdentCollision2(ctx.a, ctx.b, ctx.o.keys)
+CheckK(c, prop, clause) ==
+  IF c THEN TRUE
+  ELSE IF IdentKnown THEN PrintT(<<"JDV-KNOWN", Rec.sess, prop, "setkeys-identity-ignores-key-names", clause>>)
+  ELSE FailLine(prop, clause)
+
 (* the v1 patch machine: one hunk per step, validated against the real intermediate document *)
 TStep ==
   /\ IsEvent("PatchStep") /\ Consume /\ UNCHANGED ctx
-  /\ (Judge("C17") /\ Rec.k = ctx.n) => Check(Rec.res.st = "ok", "C17", "patch")
+  /\ (Judge("C17") /\ Rec.k = ctx.n) => CheckK(Rec.res.st = "ok", "C17", "patch")
   /\ IF status = "run" THEN
         LET r == ApplyV1(doc, Head(rest)) IN
         IF Rec.res.st = "ok" /\ ~Bad(r) /\ EqR(r, Rec.res.doc, Reading(ctx.o)) THEN
@@ -45,7 +55,7 @@ Keep == UNCHANGED <<doc, rest, status>>
 
 TEquals ==
   /\ IsEvent("Equals") /\ Consume /\ Keep /\ UNCHANGED ctx
-  /\ Judge("C17") => Check(Rec.res.st = "ok" /\ Rec.res.bool, "C17", "equals")
+  /\ Judge("C17") => CheckK(Rec.res.st = "ok" /\ Rec.res.bool, "C17", "equals")
 TEqualsAB ==
   /\ IsEvent("EqualsAB") /\ Consume /\ Keep /\ UNCHANGED ctx
   /\ Judge("C17") =>
@@ -53,11 +63,11 @@ TEqualsAB ==
        ELSE IF "v1-diff-ignores-precision" \in KnownDevs /\ ctx.o.eps > 0 /\ Rec.res.st = "ok" /\ Rec.res.bool /\ ctx.d # <<>>
                 /\ ~Eq(ctx.a, ctx.b, [ctx.o EXCEPT !.eps = 0])
             THEN PrintT(<<"JDV-KNOWN", Rec.sess, "C17", "v1-diff-ignores-precision">>)
-       ELSE FailLine("C17", "empty-iff-equal")
+       ELSE CheckK(FALSE, "C17", "empty-iff-equal")
 
 Trip(prop, name) ==
   /\ Check(Rec.read = "ok", prop, <<name, "read">>)
-  /\ Rec.read = "ok" => Check(Rec.res.st = "ok" /\ Rec.eq, prop, <<name, "patch-or-equals">>)
+  /\ Rec.read = "ok" => CheckK(Rec.res.st = "ok" /\ Rec.eq, prop, <<name, "patch-or-equals">>)
 
 TTextTrip  == IsEvent("TextTrip") /\ Consume /\ Keep /\ UNCHANGED ctx /\ (Judge("C17") => Trip("C17", "render-read"))
 
